@@ -1,7 +1,7 @@
 """C14 - every opt-in object, wherever it sits, is serialised remotely exactly once."""
 import ast
 
-from ..astutil import (AnalysisError, dotted, calls_in, last_attr, receiver, norm, is_name, walk_local, is_self_attr,
+from ..astutil import (facts_at, canon, AnalysisError, dotted, calls_in, last_attr, receiver, norm, is_name, walk_local, is_self_attr,
                        loc, short, parent_map, names_in)
 from ..cfg import is_flow, path_str
 
@@ -153,13 +153,15 @@ def run(ctx):
             n_hook += 1
             base = norm(a.value)
             guarded = False
+            stn = a
+            while stn in pm and not isinstance(stn, ast.stmt):
+                stn = pm[stn]
+            # polarity-free: some enclosing conditional establishes hasattr(<base>, '<hook>') for this statement
+            if (f"hasattr({base}, '{a.attr}')", True) in facts_at(pm, stn):
+                guarded = True
             cur = a
             while cur in pm:
                 prev, cur = cur, pm[cur]
-                if isinstance(cur, ast.If):
-                    t = norm(cur.test)
-                    if f"hasattr({base}, '{a.attr}')" in t and any(prev is x or any(prev is y for y in ast.walk(x)) for x in cur.body):
-                        guarded = True
                 if isinstance(cur, ast.Try) and any('AttributeError' in ' '.join(ctx.an.handler_types(h, f)) for h in cur.handlers) and any(prev is x for x in cur.body):
                     guarded = True
             ctx.check('R3', f'{f.short}: access to the optional hook {a.attr} is guarded', guarded, f.short, f'unguarded-hook:{a.attr}',
